@@ -205,14 +205,35 @@ func ZZ_Step_SetModeERR() {
 	rf := zzParam("RF", 3)
 	e := zzSymbolicEnv(rf)
 	addr := e.zzAnyAddr("addr")
-	mode := zzPick("mode", "ERR", "WO", "INIT", "")
+	mode := zzPick("mode", "ERR", "RW", "WO", "INIT", "")
 	pre := len(e.c.replicas)
+	preMode := e.modeOf(addr)
 	err := e.c.SetReplicaMode(addr, types.Mode(mode))
-	if mode != "ERR" {
+	if mode != "ERR" && mode != "RW" {
 		zzAssert(err != nil, "C18.setmode-invalid-mode-accepted")
 		zzAssert(len(e.c.replicas) == pre, "C18.setmode-invalid-mode-changed-membership")
 	}
+	if mode == "RW" {
+		zzAssert(err == nil, "C18.setmode-RW-refused")
+		zzAssert(len(e.c.replicas) == pre, "C18.setmode-RW-changed-membership")
+		zzAssert(zzImplies(preMode != "", e.modeOf(addr) == types.RW), "C18.setmode-RW-not-applied")
+	}
 	e.zzCheckInvC("setmode.post", false, err == nil)
+	// a second update for the same address arrives before the monitor has removed the
+	// replica: ERR is sticky, and both structures must still agree
+	switch zzPick("second", "none", "RW", "ERR") {
+	case "RW":
+		err2 := e.c.SetReplicaMode(addr, types.RW)
+		zzAssert(err2 == nil, "C18.setmode-second-RW-refused")
+		if mode == "ERR" && preMode != "" {
+			zzReach("setmode.rw-after-err")
+			zzAssert(!e.attached(addr) || e.modeOf(addr) == types.ERR, "C18.ERR-replica-revived-by-mode-update")
+		}
+		e.zzCheckInvC("setmode.second", false, true)
+	case "ERR":
+		e.c.SetReplicaMode(addr, types.ERR)
+		e.zzCheckInvC("setmode.second", false, true)
+	}
 	zzSettle()
 	if mode == "ERR" && err == nil {
 		zzReach("setmode.err")
@@ -227,7 +248,13 @@ func ZZ_Step_MonitorEvent() {
 	zzAssume(e.n > 0)
 	i := zzConcretize(zzChoice("victim", e.n))
 	addr := zzAddrs[i]
-	e.f.remotes[addr].ZZInjectMonitorError(zzmodel.ErrIO)
+	if zzNondetBool("clean-stop") {
+		// the data connection broke: reported through closeChan, no error on the monitor channel
+		e.f.remotes[addr].ZZInjectConnectionClosed()
+		zzReach("monitor.clean-stop")
+	} else {
+		e.f.remotes[addr].ZZInjectMonitorError(zzmodel.ErrIO)
+	}
 	zzSettle()
 	zzReach("monitor.event")
 	zzAssert(!e.attached(addr), "C05.replica-with-failed-ping-still-attached")
